@@ -150,7 +150,15 @@ fn gen(rng: &mut Rng, tier: Tier) -> Vec<Case> {
             } else { gen_tag(rng, &regions, max, base, &chroms) };
             ops.push(Op::Tag(tag, k));
         }
-        let c = C { ty, regions, bin, ops };
+        let mut c = C { ty, regions, bin, ops };
+        // top of the coordinate range: the whole case is moved so that its greatest coordinate is u64::MAX - {0,1,2}
+        // (start + bin_size then exceeds u64::MAX for the last bins)
+        if base == 0 && rng.chance(1, 5) {
+            let m = c.regions.iter().map(|r| r.end).chain(c.ops.iter().filter_map(|o| if let Op::Tag(t, _) = o { Some(t.end) } else { None })).max().unwrap_or(0);
+            let d = u64::MAX - rng.below(3) - m;
+            for r in c.regions.iter_mut() { r.start += d; r.end += d; }
+            for o in c.ops.iter_mut() { if let Op::Tag(t, _) = o { t.start += d; t.end += d; } }
+        }
         if valid(&c) { out.push(Case::new(if small { "boundary" } else { "random" }, enc(&c))); }
     }
     add_flavours(rng, &mut out);
